@@ -50,6 +50,15 @@ def run_case(case):
 		sigs = [np.array(sorted(set(rnd.randrange(top) for _ in range(rnd.choice([0, 0, 1, 3, 20])))), dtype=dt) for _ in range(n)]
 		if n and rnd.random() < .5:
 			sigs[rnd.randrange(n)] = np.array([top - 1], dtype=dt)
+		if case.get('mixed_dtypes') and n:
+			# a list-backed collection may hold arrays of different integer types (and empty arrays of any type): values must survive exactly
+			pool = ['u8', 'i8', 'u4', 'i4', 'u2'] if k <= 16 else ['u8', 'i8']
+			sigs = [s_.astype(rnd.choice(pool)) if len(s_) and int(s_.max()) < 2 ** 63 else s_ for s_ in sigs]
+			sigs[rnd.randrange(n)] = np.array([])                      # float64, empty
+			if k >= 27:
+				sigs[0] = np.array(sorted({2 ** 53 + 1, 2 ** 53 + 3, top - 1, top - 2, 5}), dtype='u8')
+				if n > 1:
+					sigs[1] = np.array([3, 2 ** 53 + 5, 2 ** 62 + 1], dtype='i8')
 		if case.get('sizes'):
 			# signatures of prescribed sizes (size skew: tiny next to very large ones, powers of two and their neighbours)
 			sigs = [np.arange(sz, dtype=dt) * max(1, (top // max(sz, 1)) // 2) + (i % 2) for i, sz in enumerate(case['sizes'])]
@@ -69,7 +78,9 @@ def run_case(case):
 			                      id_attr=rnd.choice([None, 'key', 'refseq_acc']), description=rnd.choice([None, 'multi\nline «desc»']),
 			                      extra=rnd.choice([{}, {'a': [1, 2, {'b': None, 'ç': 'd'}], 'n': 1.5}, {'revision': {'num': 3, 'date': '2021'}}]))
 		cont = case.get('container', 'array')
-		base = SignatureArray(sigs, ks) if cont == 'array' else SignatureList(sigs, ks)
+		if case.get('mixed_dtypes'):
+			cont = 'list'
+		base = SignatureArray(sigs, ks) if cont == 'array' else SignatureList(sigs, ks, dtype=dt)
 		obj = AnnotatedSignatures(base, ids if idkind != 'none' else None, meta) if (idkind != 'none' or meta) else base
 		kw = {}
 		if case.get('compression'):
@@ -126,6 +137,10 @@ def bounded(tier, seed):
 		cases.append({'kind': 'roundtrip', 'seed': rnd.randrange(10 ** 6), 'k': rnd.choice([1, 3, 4, 5, 8, 9, 16, 17, 32]), 'prefix': rnd.choice(['A', 'ATG', 'acgt']),
 		              'n': rnd.choice([1, 1, 2, 5, 30]), 'ids': rnd.choice(['str', 'int', 'bytes', 'none']), 'meta': rnd.random() < .7,
 		              'container': rnd.choice(['array', 'list']), 'compression': rnd.choice([None, None, 'gzip', 'lzf'])})
+	for k in (5, 16, 27, 30, 32):
+		for idk in ('str', 'none'):
+			cases.append({'kind': 'roundtrip', 'seed': rnd.randrange(10 ** 6), 'k': k, 'prefix': 'ATG', 'n': rnd.choice([2, 4, 9]), 'ids': idk, 'meta': False, 'container': 'list',
+			              'mixed_dtypes': True, 'compression': rnd.choice([None, 'gzip'])})
 	# size skew: very large signatures between small ones, sizes around powers of two (write buffering / chunking boundaries)
 	for sizes in ([4, 2 ** 20 + 1, 9], [3, 2 ** 16, 0, 2 ** 16 + 1, 5], [1, 2 ** 21 + 3, 2, 2 ** 20, 7], [0, 70000, 3, 2 ** 18 - 1, 1]):
 		for cont in ('list', 'array'):
